@@ -25,6 +25,9 @@ pub struct Scn {
     pub log_sync: i32, // sync interval 2^k s
     pub log_dreq: i32,
     pub duration_s: i64,
+    /// a Delay_Req is in flight when the first Sync that carries an offset arrives (so the clock is stepped between
+    /// the request's transmit timestamp and the arrival of its response)
+    pub inflight: bool,
 }
 
 pub struct Outcome {
@@ -58,7 +61,7 @@ pub fn run_traced(g: &mut FGen, rng: &Prng, s: &Scn, trace: bool) -> Outcome {
         /// a Sync sent by the master at `t1` reaches the slave
         SyncArrive { t1: i128 },
         /// the slave sends a Delay_Req
-        DreqSend,
+        DreqSend { chain: bool },
         /// the Delay_Resp for the request stamped `t3` (slave clock) / `t4` (master clock) reaches the slave
         DrespArrive { t3: i128, t4: i128 },
         /// the filter update timer, armed when the slave clock read `armed`
@@ -88,7 +91,11 @@ pub fn run_traced(g: &mut FGen, rng: &Prng, s: &Scn, trace: bool) -> Outcome {
     };
     let first_sync = t + (rng.below(ts as u64 / 1024) as i128) * 1024;
     push(&mut queue, first_sync + s.delay + jit(rng).max(-s.delay), Ev::SyncArrive { t1: first_sync });
-    push(&mut queue, t + (rng.below(td as u64 / 1024) as i128) * 1024, Ev::DreqSend);
+    push(&mut queue, t + (rng.below(td as u64 / 1024) as i128) * 1024, Ev::DreqSend { chain: true });
+    if s.inflight {
+        // a request sent half a path delay before the first Sync arrives
+        push(&mut queue, first_sync + s.delay - s.delay / 2, Ev::DreqSend { chain: false });
+    }
     let mut upd_gen = 0u64;
     let mut last_raw_sync: Option<i128> = None;
     let mut mean_delay: Option<i128> = None;
@@ -125,16 +132,23 @@ pub fn run_traced(g: &mut FGen, rng: &Prng, s: &Scn, trace: bool) -> Outcome {
                     push(&mut queue, t + 2 * SEC, Ev::Update { gen: upd_gen });
                 }
                 let next = t1 + ts;
-                push(&mut queue, next + s.delay + jit(rng).max(-s.delay), Ev::SyncArrive { t1: next });
+                let next_sync_arrival = next + s.delay + jit(rng).max(-s.delay);
+                push(&mut queue, next_sync_arrival, Ev::SyncArrive { t1: next });
+                if s.inflight && t - t0 < 20 * SEC {
+                    // while the servo may still step: a request in flight across every Sync arrival
+                    push(&mut queue, next_sync_arrival - s.delay / 2, Ev::DreqSend { chain: false });
+                }
             }
-            Ev::DreqSend => {
+            Ev::DreqSend { chain } => {
                 let t3 = reading;
                 let t4 = t + s.delay + jit(rng).max(-s.delay);
                 // the response travels back over the same path
                 push(&mut queue, t4 + s.delay + jit(rng).max(-s.delay), Ev::DrespArrive { t3, t4 });
                 // the port draws every delay request interval uniformly from (0, 2) x the configured interval
-                let gap = ((td as f64) * (rng.below(2_000_001) as f64 / 1_000_000.0)) as i128 + 1;
-                push(&mut queue, t + gap, Ev::DreqSend);
+                if chain {
+                    let gap = ((td as f64) * (rng.below(2_000_001) as f64 / 1_000_000.0)) as i128 + 1;
+                    push(&mut queue, t + gap, Ev::DreqSend { chain: true });
+                }
             }
             Ev::DrespArrive { t3, t4 } => {
                 let raw = t3 - t4;
@@ -217,6 +231,7 @@ pub fn random_scn(rng: &Prng, corner: bool) -> Scn {
             log_sync: *rng.pick(&[-3, 1, 0]),
             log_dreq: *rng.pick(&[-3, 1, 0]),
             duration_s: 600,
+            inflight: false,
         }
     } else {
         Scn {
@@ -227,6 +242,7 @@ pub fn random_scn(rng: &Prng, corner: bool) -> Scn {
             log_sync: pick_log(rng),
             log_dreq: pick_log(rng),
             duration_s: 600,
+            inflight: false,
         }
     }
 }
@@ -247,19 +263,21 @@ pub fn generate(out: &mut Out, rng: &Prng, thorough: bool) {
     for i in 0..scenarios {
         let mut s = random_scn(rng, i % 3 == 0);
         s.duration_s = deadline_s(&s) as i64 + 200;
+        s.inflight = i % 4 == 1;
         if let Some(j) = std::env::var("VERIF_LOOP_JITTER_NS").ok().and_then(|x| x.parse::<i128>().ok()) {
             s.jitter = j * NS;
         }
         let trace = std::env::var("VERIF_LOOP_TRACE").ok().and_then(|x| x.parse::<usize>().ok()) == Some(i);
         let r = run_traced(&mut g, rng, &s, trace);
         let desc = format!(
-            "theta0={:.6}s eps={}ppm delay={}ns jitter={}ns sync=2^{} dreq=2^{}",
+            "theta0={:.6}s eps={}ppm delay={}ns jitter={}ns sync=2^{} dreq=2^{}{}",
             s.theta0 as f64 / SEC as f64,
             s.eps_ppm,
             s.delay / NS,
             s.jitter / NS,
             s.log_sync,
-            s.log_dreq
+            s.log_dreq,
+            if s.inflight { " request-in-flight-at-first-step" } else { "" }
         );
         g.out.count("loop.scenarios");
         if explore {
